@@ -179,3 +179,32 @@ TWINS = [
     silent('twin-blockcomment-format', ['C12'], [(BC, "    lines = s.split('\\n')\n    return [line + '\\n' for line in lines[:-1]] + [lines[-1]]", "    parts = s.split('\\n')\n    return [part + '\\n' for part in parts[:-1]] + parts[-1:]")]),
 ]
 VARIANTS += TWINS
+
+TWINS2 = [
+    silent('twin2-update-temp-var', ['C08', 'C02'], [(TS, "        handle = _check_store_handle(token)\n        handle.block.size.line += size.line - token.size.line\n        if handle.index < handle.block.last_newline_index:\n            return",
+                                                      "        handle = _check_store_handle(token)\n        line_delta = size.line - token.size.line\n        handle.block.size.line += line_delta\n        if handle.block.last_newline_index > handle.index:\n            return")]),
+    silent('twin2-get-index-sum', ['C07'], [(TS, "        index = handle.index\n        for i in range(handle.block.index):\n            index += len(self._blocks[i].tokens)\n        return index",
+                                             "        index = handle.index\n        for k in range(handle.block.index):\n            index += len(self._blocks[k].tokens)\n        return index")]),
+    silent('twin2-splice-len-var', ['C07', 'C08'], [(TS, "        self._len += len(tokens) - len_removed", "        self._len += -len_removed + len(tokens)")]),
+    silent('twin2-merge-swap-branches', ['C07', 'C08'], [(TS, "        if len(a.tokens) < _DOUBLE_LOAD_FACTOR:\n            a.rebuild()\n            self._blocks.pop(b.index)\n            self._update_block_indexes(b.index)\n        else:\n            length = len(a.tokens) >> 1\n            b.tokens[:] = a.tokens[length:]\n            del a.tokens[length:]\n            a.rebuild()\n            b.rebuild()",
+                                                           "        if len(a.tokens) >= _DOUBLE_LOAD_FACTOR:\n            length = len(a.tokens) >> 1\n            b.tokens[:] = a.tokens[length:]\n            del a.tokens[length:]\n            a.rebuild()\n            b.rebuild()\n        else:\n            a.rebuild()\n            self._blocks.pop(b.index)\n            self._update_block_indexes(b.index)")]),
+    silent('twin2-del-tokens-rename', ['C03', 'C05'], [(PR, "            prev_last = self._prev_last(start)\n            t = self._repeated.token_store.get_next(prev_last)\n            assert t is not None\n            first_token = t\n            last_token = self._repeated.items[stop - 1].last_token",
+                                                        "            before = self._prev_last(start)\n            nxt = self._repeated.token_store.get_next(before)\n            assert nxt is not None\n            first_token = nxt\n            last_token = self._repeated.items[stop - 1].last_token")]),
+    silent('twin2-optional-set-early-return', ['C05', 'C19', 'C03'], [(PR, "        current = self._inner_field.__get__(instance)\n        if current is None and value is not None:\n            pivot = self._pivot_property.__get__(instance)\n            self._inner_field._create_node(instance.token_store, pivot, value)\n        elif current is not None and value is None:",
+                                                                        "        current = self._inner_field.__get__(instance)\n        if current is None and value is None:\n            return\n        if current is None and value is not None:\n            pivot = self._pivot_property.__get__(instance)\n            self._inner_field._create_node(instance.token_store, pivot, value)\n        elif current is not None and value is None:")]),
+    silent('twin2-find-spacing-for-else', ['C17'], [(SP, "    while isinstance(token, Newline | Whitespace):\n        if token.raw_text:\n            tokens.append(token)\n        token = succ(token)\n    return tokens",
+                                                     "    while isinstance(token, (Newline, Whitespace)):\n        if token.raw_text:\n            tokens.append(token)\n        token = succ(token)\n    return tokens")]),
+    silent('twin2-editor-pathlib', ['C16'], [(ED, "        for current_path in set(texts) - set(files):\n            os.unlink(current_path)", "        removed = set(texts) - set(files)\n        for current_path in removed:\n            os.unlink(current_path)")]),
+    silent('twin2-claim-order-vars', ['C14', 'C04'], [(IC, "        items = list(itertools.chain(comments_before, items_inner, comments_after))\n        comments = []\n        for item in items:",
+                                                       "        items = [*comments_before, *items_inner, *comments_after]\n        comments = []\n        for item in items:")]),
+    silent('twin2-op-pair-local', ['C13'], [(NE, "    def __add__(self, other: 'NumberExpr') -> 'NumberExpr':\n        return copy.deepcopy(self).__iadd__(other)", "    def __add__(self, other: 'NumberExpr') -> 'NumberExpr':\n        result = copy.deepcopy(self)\n        return result.__iadd__(other)")]),
+    silent('twin2-builder-fixgap-index', ['C01'], [(PA, "    def _build_token(self, token: lark.Token) -> models.RawTokenModel:\n        self._fix_gap(self._token_to_index[id(token)])",
+                                                    "    def _build_token(self, token: lark.Token) -> models.RawTokenModel:\n        position = self._token_to_index[id(token)]\n        self._fix_gap(position)")]),
+    silent('twin2-indent-flow-local', ['C18'], [(MI, "        self.append(MetaItem.from_value(index, value, indent=self._get_indent()))", "        indent = self._get_indent()\n        self.append(MetaItem.from_value(index, value, indent=indent))")]),
+    silent('twin2-deepcopy-eq-order', ['C20', 'C11'], [(RP, "        return isinstance(other, Repeated) and self.items == other.items", "        return isinstance(other, Repeated) and other.items == self.items")]),
+    silent('twin2-unary-compare-eq', ['C13'], [('autobean_refactor/models/number_unary_expr.py', "        if self._unary_op.raw_text == '+':\n            return self._operand.value\n        elif self._unary_op.raw_text == '-':\n            return -self._operand.value",
+                                                "        if self._unary_op.raw_text == '-':\n            return -self._operand.value\n        elif self._unary_op.raw_text == '+':\n            return self._operand.value")]),
+    silent('twin2-tokens-property-local', ['C01', 'C04'], [(BA, "        return list(self.token_store.iter(self.first_token, self.last_token))", "        first, last = self.first_token, self.last_token\n        return list(self.token_store.iter(first, last))")]),
+    silent('twin2-value-setter-order', ['C08', 'C19', 'C02'], [(BT, "        self._value = value\n        self._update_raw_text(self._format_value(value))", "        raw_text = self._format_value(value)\n        self._value = value\n        self._update_raw_text(raw_text)")]),
+]
+VARIANTS += TWINS2
